@@ -9,3 +9,12 @@ package util
 //@   modifies hashwritten
 //@   ensures [range] 0 <= result && result < shardCount
 //@   ensures [def] result == shardOf(value, shardCount)
+
+//@ func FlowControlStatusToMap props C07
+//@   modifies nothing
+//@   ensures [keys] forall n string :: {n in result} (n in result) <==> exists j int :: {flowControlStatuses[j]} 0 <= j && j < len(flowControlStatuses) && flowControlStatuses[j].Name == n
+//@   ensures [values] forall n string :: {n in result} (n in result) ==> exists j int :: {flowControlStatuses[j]} 0 <= j && j < len(flowControlStatuses) && flowControlStatuses[j].Name == n && result[n] == flowControlStatuses[j]
+//@   ensures [fresh] result != nil && fresh(result)
+//@   loop 0: invariant [bounds] 0 <= idx && idx <= len(flowControlStatuses) && statusMap != nil && fresh(statusMap)
+//@   loop 0: invariant [keys] forall n string :: {n in statusMap} (n in statusMap) <==> exists j int :: {flowControlStatuses[j]} 0 <= j && j < idx && flowControlStatuses[j].Name == n
+//@   loop 0: invariant [values] forall n string :: {n in statusMap} (n in statusMap) ==> exists j int :: {flowControlStatuses[j]} 0 <= j && j < idx && flowControlStatuses[j].Name == n && statusMap[n] == flowControlStatuses[j]
